@@ -16,6 +16,12 @@ Per run:
         C-contiguous copy.
   (iv) input freezing / aliasing on every evaluated call; observed protocol of every integrator call is checked against
         the extracted one inside Coq (Model/MemoCheck.proto_check).
+
+"Fresh interpreter": importing dadi costs 2-3 s, so every reference call / history / layout chunk runs in its own FORK of an
+interpreter that has imported the rebuilt dadi and done nothing else (harness/impl/c20_impl.py mode 'batch', one interpreter
+group per PYTHONHASHSEED); a sample of calls is also run in newly exec'ed interpreters and must agree bitwise.  The driver refuses
+to run if `import dadi` did not come from the overlay (dadi is also installed in /venv, pointing at /repo) and the harness checks
+that every interpreter saw the overlay stamp the check started with.
 """
 import copy, json, os, hashlib, time
 from concurrent.futures import ThreadPoolExecutor
